@@ -326,6 +326,82 @@ def v5(prog: Program, chk: Check) -> None:
             "" if ok else "results are written elsewhere than at sch_indices[i]")
 
 
+def v6_v7(prog: Program, chk: Check) -> None:
+    chk.rule("V6", "the filter that keeps the time-ordered part of the last times is the exact "
+             "complement of the test that detects unordered entries (equal times are ordered)",
+             floor=1)
+    chk.rule("V7", "'left' / 'right' select left_super / right_super; the ordered two-time "
+             "correlation applies both operators from the left", floor=2)
+    u = prog.unit(f"{SD}:compute_correlations_nt")
+    du = DefUse(u, CFG(u.node, exc_edges=False))
+
+    def norm_cmp(c: ast.Compare) -> Optional[Tuple[str, str, str]]:
+        if len(c.ops) != 1:
+            return None
+        op = {ast.Gt: ">", ast.GtE: ">=", ast.Lt: "<", ast.LtE: "<="}.get(type(c.ops[0]))
+        if op is None:
+            return None
+        l, r = norm(c.left), norm(c.comparators[0])
+        if op in ("<", "<="):          # write everything as  big OP small
+            l, r, op = r, l, {"<": ">", "<=": ">="}[op]
+        return l, op, r
+    trigger = keep = None
+    for st in walk_local(u.node):
+        if isinstance(st, ast.If):
+            for c in ast.walk(st.test):
+                if isinstance(c, ast.Compare) and "last_times" in norm(c) and "ft_max" in norm(c):
+                    trigger = norm_cmp(c)
+        if isinstance(st, ast.Assign) and isinstance(st.value, ast.Compare) \
+                and "last_times" in norm(st.value) and "ft_max" in norm(st.value):
+            keep = norm_cmp(st.value)
+        if isinstance(st, ast.Assign) and isinstance(st.value, ast.Subscript) and \
+                isinstance(st.value.slice, ast.Compare) and "ft_max" in norm(st.value.slice):
+            keep = norm_cmp(st.value.slice)
+    ok = trigger is not None and keep is not None and \
+        trigger[0] == keep[2] and trigger[2] == keep[0] and \
+        {trigger[1], keep[1]} == {">", ">="}
+    chk.add("V6", u, f"unordered if {trigger}, kept if {keep}", ok,
+            "complementary predicates" if ok else
+            "an entry can be neither detected as unordered nor kept (or both): entries at equal "
+            "times become NaN or unordered entries are computed")
+    inner = prog.unit(f"{SD}:_compute_ordered_nt_correlations")
+    table = {}
+    for st in walk_local(inner.node):
+        if isinstance(st, ast.If):
+            cur = st
+            while isinstance(cur, ast.If):
+                t = cur.test
+                if isinstance(t, ast.Compare) and isinstance(t.comparators[0], ast.Constant) \
+                        and "ops_order" in norm(t.left):
+                    fns = [call_name(c) for c in ast.walk(ast.Module(body=cur.body, type_ignores=[]))
+                           if isinstance(c, ast.Call) and (call_name(c) or "").endswith("_super")]
+                    table[t.comparators[0].value] = fns
+                cur = cur.orelse[0] if len(cur.orelse) == 1 else None
+            break
+    ok = table == {"left": ["left_super"], "right": ["right_super"]}
+    chk.add("V7", inner, f"ops_order table {table}", ok,
+            "" if ok else "'left'/'right' do not select left_super/right_super")
+    cc = prog.unit(f"{SD}:compute_correlations")
+    orders = {}
+    for st in cc.node.body:
+        if isinstance(st, ast.If) and isinstance(st.test, ast.Compare) and \
+                isinstance(st.test.comparators[0], ast.Constant):
+            for b in st.body:
+                if isinstance(b, ast.Assign) and dotted(b.targets[0]) == "ops_order" \
+                        and isinstance(b.value, ast.List):
+                    orders[st.test.comparators[0].value] = [e.value for e in b.value.elts]
+    ok = orders == {"ordered": ["left", "left"], "anti": ["right", "left"]}
+    chk.add("V7", cc, f"ops_order per time_order {orders}", ok,
+            "" if ok else "expected ordered -> [left, left], anti -> [right, left]")
+    # the expectation is taken with the LAST operator and read at the last times
+    ok1 = any(isinstance(c, ast.Call) and method_call(c) == ("dynamics", "expectations")
+              and norm(c.args[0]) == "operators[-1]" for c in walk_local(inner.node))
+    ok2 = any(isinstance(x, ast.Subscript) and norm(x) == "corr[last_times]"
+              for x in walk_local(inner.node))
+    chk.add("V7", inner, "expectation of operators[-1] read at last_times", ok1 and ok2,
+            "" if ok1 and ok2 else "the last operator / its times are not the ones read out")
+
+
 def run(prog: Program, chk: Check) -> None:
     chk.explanation = (
         "Decides the alignment bookkeeping of compute_correlations(_nt): V1 the time step that "
@@ -344,3 +420,4 @@ def run(prog: Program, chk: Check) -> None:
     v3(prog, chk)
     v4(prog, chk)
     v5(prog, chk)
+    v6_v7(prog, chk)
